@@ -42,7 +42,7 @@ def setup_worker(tier=None):
 
 
 def cases(tier, seed):
-  n = 16 if tier == 'quick' else 160
+  n = 16 if tier == 'quick' else 800
   per = 20 if tier == 'quick' else 40
   return [{'batch': i, 'seed': seed, 'per': per} for i in range(n)]
 
